@@ -190,6 +190,8 @@ def via_files(ctx, D, prefix, route, wit):
     try:
         paths = [pathlib.Path(d) / f"g{k}.xml" for k in range(4)]
         a = monitored(D.write_xml, paths[0])
+        # the second target already exists and holds a LONGER file (an older, bigger definition): writing replaces it
+        paths[1].write_bytes(definition_to_bytes(D) + b"<!-- " + b"x" * 5000 + b" -->\n")
         b = monitored(D.write_xml, paths[1])
         ctx.count("write.via_write_xml")
         if a.exc is not None or b.exc is not None:
